@@ -591,6 +591,10 @@ func (c *Client) verifyLightBlock(ctx context.Context, newLightBlock *types.Ligh
 		if err != nil {
 			return fmt.Errorf("can't get first light block: %w", err)
 		}
+		// The header the hash links start from must still be within the trusting period.
+		if HeaderExpired(firstBlock.SignedHeader, c.trustingPeriod, now) {
+			return ErrOldHeaderExpired{firstBlock.Time.Add(c.trustingPeriod), now}
+		}
 		// Backwards verification only links headers by hash. The light block that is going to be
 		// stored must therefore be checked on its own: its validator set has to be the one the
 		// header names and its commit has to be a commit of that set for that header. Otherwise
